@@ -18,6 +18,8 @@ OPTION_SETS = [
     ['--max-inline-score', '100'],
     ['--skip-deduplication', '--always-inline-filling',
      '--max-inline-score', '5'],
+    ['--skip-compositions'],
+    ['--skip-geomcomp', '--skip-boundary-conditions'],
 ]
 
 DENSITIES = ['-1.0', '-2.7', '0.05', '-7.85', '1.0', '-.5', '-1.00',
@@ -194,6 +196,9 @@ def gen_deck(rng):
             if rng.random() < 0.04:
                 cell['mat'] = f'0{cell["mat"]}'
                 tags.add('leading-zero-material')
+            elif rng.random() < 0.012:
+                cell['mat'] = 77          # no M77 card (open finding)
+                tags.add('material-without-card')
 
     next_cid = [0]
 
@@ -253,6 +258,9 @@ def gen_deck(rng):
         if rng.random() < 0.08:
             cell['imp'] = {'n': 0}
             tags.add('imp0')
+        elif rng.random() < 0.012:
+            cell['imp'] = {'n': -1}       # open finding
+            tags.add('negative-importance')
     if rng.random() < 0.5:
         cell = new_cell(gen_expr(rng, lits, ids))
         cell['imp'] = {'n': 0}
